@@ -564,6 +564,8 @@ def dot(a, b, axis=None):
                 'Number of the modes of the first tensor must be equal with the second.')
         if len(set(axis)) != len(axis):
             raise InvalidArguments('The axis list must not contain an index twice.')
+        if list(axis) != sorted(axis):
+            raise InvalidArguments('The axis list must be ascending: mode k of b is contracted with the k-th selected mode of a.')
         if [a.N[i] for i in axis] != b.N:
             raise ShapeMismatch(
                 'The modes of the first tensor selected by axis must be equal with the modes of the second.')
